@@ -50,4 +50,10 @@ theorem step_fromChar (rf : Refuse) (w : World) (d : Nat) (c : Bytes) (hd : w.ge
 -- non-vacuity
 example : fromStr (fun _ _ => false) {} [0x61, 0x62] = (some (.inl (inlNew [0x61, 0x62])), {}) := by decide
 
+/-- the comparison operators the model hard-codes for the inline limit are the ones in the source -/
+theorem guards :
+    Gen.guardFromStr = "<=" ∧ Gen.guardFromStaticStr = "<=" ∧ Gen.guardWithCapacity = "<=" ∧
+    Gen.guardReserveStatic = "<=" ∧ Gen.guardReserveInline = ">" ∧ Gen.guardInlineSetLen = "<" :=
+  ⟨rfl, rfl, rfl, rfl, rfl, rfl⟩
+
 end LS.C09
